@@ -82,6 +82,11 @@ public:
             return std::move(_handler)(error_code {});
         }
         else {
+            // Closed by cancel(): there is nothing left to shut down and
+            // the stream must not be replaced and reopened.
+            if (!_owner.is_open())
+                return std::move(_handler)(asio::error::operation_aborted);
+
             if (_owner._conn_mtx.is_locked())
                 return std::move(_handler)(error_code{});
 
